@@ -412,6 +412,8 @@ type sevCase struct {
 	AllowUnspec bool
 	BundleClass string
 	Blocks      [][]byte
+	MeasShape   string // base measurement derived from the endorsed one: "prefix47", "bitflip", "extended"
+	KeyShape    string // base trusted key lists already containing the bundle's blocks
 
 	replayName string // non-empty: save a JSON replay before reporting (enumerated checks)
 }
@@ -533,6 +535,12 @@ func checkSev(tb ev.TB, c *sevCase) outcome {
 			res = "ok"
 		}
 		out.extra = []string{"bundle=" + c.BundleClass + ":" + res, "launch=" + launchKind + ":" + res}
+		if c.MeasShape != "" {
+			out.extra = append(out.extra, fmt.Sprintf("basemeasurement=%s/ow=%v:%s", c.MeasShape, ow, res))
+		}
+		if c.KeyShape != "" {
+			out.extra = append(out.extra, "basekeys="+c.KeyShape+":"+res)
+		}
 		return out
 	}
 
@@ -801,6 +809,35 @@ func genSevCase(t *rapid.T) *sevCase {
 		if len(base.Measurement) != 0 && c.Launch != 0 && (harmonize || rapid.Bool().Draw(t, "eq:measurement")) {
 			base.Measurement = clone(sev.Measurements[c.Launch])
 		}
+		if m := sev.Measurements[c.Launch]; !harmonize && len(base.Measurement) != 0 && c.Launch != 0 && len(m) > 1 && pct(t, "measshape", 25) {
+			// near misses of the endorsed measurement: a strict prefix, a one-bit neighbour, an extension
+			c.MeasShape = rapid.SampledFrom([]string{"prefix47", "bitflip", "extended"}).Draw(t, "measshapekind")
+			switch c.MeasShape {
+			case "prefix47":
+				base.Measurement = clone(m[:len(m)-1])
+			case "bitflip":
+				base.Measurement = clone(m)
+				sel := rapid.Uint64().Draw(t, "measbit")
+				base.Measurement[int(sel>>8)%len(m)] ^= 1 << (sel % 8)
+			case "extended":
+				base.Measurement = append(clone(m), 0)
+			}
+		}
+		if c.BundleClass != bEmpty && pct(t, "keyshape", 20) {
+			// base key lists that already contain the bundle's blocks (the result must still be base + blocks)
+			c.KeyShape = rapid.SampledFrom([]string{"only-block", "ends-with-block", "starts-with-block", "all-blocks"}).Draw(t, "keyshapekind")
+			b0, b1 := clone(c.Blocks[0]), clone(c.Blocks[1])
+			switch c.KeyShape {
+			case "only-block":
+				base.TrustedIdKeys, base.TrustedAuthorKeys = [][]byte{b0}, [][]byte{b1}
+			case "ends-with-block":
+				base.TrustedIdKeys, base.TrustedAuthorKeys = append(base.TrustedIdKeys, b0), append(base.TrustedAuthorKeys, b1)
+			case "starts-with-block":
+				base.TrustedIdKeys, base.TrustedAuthorKeys = append([][]byte{b0}, base.TrustedIdKeys...), append([][]byte{b1}, base.TrustedAuthorKeys...)
+			case "all-blocks":
+				base.TrustedIdKeys, base.TrustedAuthorKeys = [][]byte{b0, b1, clone(c.Blocks[2])}, [][]byte{b0, b1}
+			}
+		}
 		if base.MinimumGuestSvn != 0 && (harmonize || rapid.Bool().Draw(t, "eq:svn")) {
 			if sev.Svn == 0 {
 				base.MinimumGuestSvn = 0
@@ -827,7 +864,7 @@ func genSevCase(t *rapid.T) *sevCase {
 	return c
 }
 
-const sevRule = "base check.Policy generated field by field from its descriptor via protoreflect (every scalar/bytes/repeated/message field independently set or unset, lengths and ranges legal for go-sev-guest, 10% with unknown fields, 7% nil base) x endorsement {svn, legal guest policy bits, measurement table over 0-5 VMSA counts incl. odd-length values, family/image id, svsm measurement, CA bundle in {empty, one, two, three CERTIFICATE blocks, wrong PEM type first/second, garbage, one block + garbage tail}, unrelated golden fields} x LaunchVmsas (80% from the table's keys) x Overwrite x AllowUnspecifiedVmsas; 55% of the cases are harmonised (base values compatible with the endorsement) so that the success share stays above one half. Oracle: (1) base proto.Equal to the snapshot taken before the call, result is a different object and scrambling it (bytes flipped in place, list elements replaced, sub-messages rewritten) leaves the base intact; (2) without overwrite each of guest policy / measurement / minimum_guest_svn set in the base equals the result's or an error was returned, a base minimum above the endorsed SVN must fail; (3) on success measurement == measurements[LaunchVmsas] (== base's for 0), guest policy == the endorsement's (with overwrite and a non-zero base: one of the two), trusted id/author keys == base's followed by exactly the DER of block 1 / block 2; (4) all other fields proto.Equal to the base's after clearing the touched ones; (5) an error only when a documented conflict or a malformed input is present (never because of a value conflict under overwrite). non-trivial = non-nil base with >=1 guarded field (policy, measurement, minimum_guest_svn) set; distinct = (set-field mask, outcome class, options)"
+const sevRule = "base check.Policy generated field by field from its descriptor via protoreflect (every scalar/bytes/repeated/message field independently set or unset, lengths and ranges legal for go-sev-guest, 10% with unknown fields, 7% nil base; near-miss shapes: base measurement = first 47 bytes / one-bit neighbour / one-byte extension of the endorsed one, base trusted key lists already containing the bundle's blocks) x endorsement {svn, legal guest policy bits, measurement table over 0-5 VMSA counts incl. odd-length values, family/image id, svsm measurement, CA bundle in {empty, one, two, three CERTIFICATE blocks, wrong PEM type first/second, garbage, one block + garbage tail}, unrelated golden fields} x LaunchVmsas (80% from the table's keys) x Overwrite x AllowUnspecifiedVmsas; 55% of the cases are harmonised (base values compatible with the endorsement) so that the success share stays above one half. Oracle: (1) base proto.Equal to the snapshot taken before the call, result is a different object and scrambling it (bytes flipped in place, list elements replaced, sub-messages rewritten) leaves the base intact; (2) without overwrite each of guest policy / measurement / minimum_guest_svn set in the base equals the result's or an error was returned, a base minimum above the endorsed SVN must fail; (3) on success measurement == measurements[LaunchVmsas] (== base's for 0), guest policy == the endorsement's (with overwrite and a non-zero base: one of the two), trusted id/author keys == base's followed by exactly the DER of block 1 / block 2; (4) all other fields proto.Equal to the base's after clearing the touched ones; (5) an error only when a documented conflict or a malformed input is present (never because of a value conflict under overwrite). non-trivial = non-nil base with >=1 guarded field (policy, measurement, minimum_guest_svn) set; distinct = (set-field mask, outcome class, options)"
 
 func TestSevDerive(t *testing.T) {
 	const name = "sev/derive"
@@ -865,7 +902,7 @@ func fullSevBase() *cpb.Policy {
 func TestSevMatrix(t *testing.T) {
 	const name = "sev/matrix"
 	const replay = "TestSevMatrix"
-	ev.Rule(name, "enumeration: fully populated base (every check.Policy field set, plus unknown fields) with guest policy in {unset, = endorsement, != endorsement} x measurement in {unset, = measurements[launch], = another count's, unrelated} x minimum_guest_svn in {unset, svn-1, svn, svn+1} x trusted keys {none, some} x Overwrite x launch in {listed, 0+allow, 0 without allow, unlisted} x all 8 CA bundle classes; plus nil base x endorsement policy {default, other}. Same oracle as sev/derive. non-trivial = >=1 guarded field set; distinct = the tuple")
+	ev.Rule(name, "enumeration: fully populated base (every check.Policy field set, plus unknown fields) with guest policy in {unset, = endorsement, != endorsement} x measurement in {unset, = measurements[1], = another count's, unrelated, first 47 bytes of measurements[1], one-bit neighbour, measurements[1] + one byte} x minimum_guest_svn in {unset, svn-1, svn, svn+1} x trusted keys {none, some, already containing the bundle's blocks} x Overwrite x launch in {listed, 0+allow, 0 without allow, unlisted} x all 8 CA bundle classes; plus nil base x endorsement policy {default, other}. Same oracle as sev/derive. non-trivial = >=1 guarded field set; distinct = the tuple")
 	var rc sevCase
 	if ev.ReplayCase(replay, &rc) {
 		rc.replayName = ""
@@ -898,13 +935,18 @@ func TestSevMatrix(t *testing.T) {
 		for _, ow := range []bool{false, true} {
 			for _, l := range launches {
 				for pi, bp := range []uint64{0, P, Pother} {
-					for mi, bm := range [][]byte{nil, m1, m4, mx} {
+					m1bit := clone(m1)
+					m1bit[47] ^= 0x80
+					for mi, bm := range [][]byte{nil, m1, m4, mx, m1[:47], m1bit, append(clone(m1), 0)} {
 						for si, bs := range []uint32{0, svn - 1, svn, svn + 1} {
-							for ki := 0; ki < 2; ki++ {
+							for ki := 0; ki < 3; ki++ {
 								b := proto.Clone(tmpl).(*cpb.Policy)
 								b.Policy, b.Measurement, b.MinimumGuestSvn = bp, clone(bm), bs
-								if ki == 0 {
+								switch ki {
+								case 0:
 									b.TrustedIdKeys, b.TrustedAuthorKeys = nil, nil
+								case 2: // the base already trusts the bundle's blocks
+									b.TrustedIdKeys, b.TrustedAuthorKeys = append(b.TrustedIdKeys, clone(blocks[0])), [][]byte{clone(blocks[1])}
 								}
 								bb, _ := proto.Marshal(b)
 								run(&sevCase{Base: bb, Golden: golden, Launch: l.launch, Overwrite: ow, AllowUnspec: l.allow, BundleClass: bundle, Blocks: blocks},
@@ -928,12 +970,75 @@ func TestSevMatrix(t *testing.T) {
 }
 
 // ---------------------------------------------------------------------------------------------
+// Lists derived from another list (a base allow-list that is "nearly" the endorsement's rows)
+
+var listShapes = []string{"equal", "prefix", "suffix", "subset", "superset", "reordered", "bitflip"}
+
+// deriveList returns a deep-copied list of the named shape relative to rows, or nil when rows is too
+// short for the shape (strict prefix/suffix/reordering need >=2 rows, a non-contiguous subset >=3).
+// sel selects among the possibilities; it is a pure function of its arguments.
+func deriveList(shape string, rows [][]byte, sel uint64) [][]byte {
+	n := len(rows)
+	cp := func(l [][]byte) [][]byte {
+		var o [][]byte
+		for _, b := range l {
+			o = append(o, clone(b))
+		}
+		return o
+	}
+	switch shape {
+	case "equal":
+		if n >= 1 {
+			return cp(rows)
+		}
+	case "prefix":
+		if n >= 2 {
+			return cp(rows[:1+int(sel%uint64(n-1))])
+		}
+	case "suffix":
+		if n >= 2 {
+			return cp(rows[1+int(sel%uint64(n-1)):])
+		}
+	case "subset": // drop one inner element: neither a prefix nor a suffix
+		if n >= 3 {
+			i := 1 + int(sel%uint64(n-2))
+			return append(cp(rows[:i]), cp(rows[i+1:])...)
+		}
+	case "superset":
+		if n >= 1 {
+			extra := expand(sel^0x5eed, 48)
+			i := int((sel >> 8) % uint64(n+1))
+			return append(append(cp(rows[:i]), extra), cp(rows[i:])...)
+		}
+	case "reordered":
+		if n >= 2 {
+			k := 1 + int(sel%uint64(n-1))
+			o := append(cp(rows[k:]), cp(rows[:k])...)
+			if !bytesListEqual(o, rows) {
+				return o
+			}
+		}
+	case "bitflip":
+		if n >= 1 {
+			o := cp(rows)
+			i := int(sel % uint64(n))
+			if len(o[i]) > 0 {
+				o[i][int(sel>>8)%len(o[i])] ^= 1 << ((sel >> 20) % 8)
+				return o
+			}
+		}
+	}
+	return nil
+}
+
+// ---------------------------------------------------------------------------------------------
 // TDX
 
 type tdxCase struct {
 	BaseNil          bool
 	Base             []byte // marshalled checkconfig.Policy
 	EmptyNonNilAllow bool   // base.td_quote_body_policy.any_mr_td = [][]byte{} (not expressible on the wire)
+	AllowShape       string // how the base allow-list relates to the endorsement's rows for RAMGiB ("" = none/unrelated)
 	Golden           []byte
 	RAMGiB           int
 	Overwrite        bool
@@ -1076,6 +1181,13 @@ func checkTdx(tb ev.TB, c *tdxCase) outcome {
 			res = "ok"
 		}
 		out.extra = []string{"ram=" + ramKind + ":" + res}
+		if len(baseAllow) > 0 {
+			shape := c.AllowShape
+			if shape == "" {
+				shape = "unrelated"
+			}
+			out.extra = append(out.extra, fmt.Sprintf("allowlist=%s/ow=%v:%s", shape, ow, res))
+		}
 		return out
 	}
 
@@ -1224,13 +1336,25 @@ func genTdxCase(t *rapid.T) *tdxCase {
 		if body != nil && len(body.AnyMrTd) > 0 {
 			c.Overwrite = pct(t, "overwrite|allowlist", 65)
 		}
-		if body != nil && len(body.AnyMrTd) > 0 && rapid.Bool().Draw(t, "eq:allow") {
-			// base allow-list already equal to what the endorsement would give
-			body.AnyMrTd = nil
+		if body != nil && len(body.AnyMrTd) > 0 && pct(t, "derive:allow", 75) {
+			// base allow-list derived from what the endorsement yields for this RAM size: equal, strict
+			// prefix / suffix, non-contiguous subset, superset, reordering, one-bit neighbour
+			var rows [][]byte
 			for _, m := range tdx.Measurements {
 				if c.RAMGiB == 0 || int(m.RamGib) == c.RAMGiB {
-					body.AnyMrTd = append(body.AnyMrTd, clone(m.Mrtd))
+					rows = append(rows, m.Mrtd)
 				}
+			}
+			shape := listShapes[rapid.IntRange(0, len(listShapes)-1).Draw(t, "allowshape")]
+			sel := rapid.Uint64().Draw(t, "allowsel")
+			l := deriveList(shape, rows, sel)
+			if l == nil { // rows too short for the shape
+				shape = "equal"
+				l = deriveList(shape, rows, sel)
+			}
+			if l != nil {
+				body.AnyMrTd = l
+				c.AllowShape = shape
 			}
 		}
 		if (body == nil || len(body.AnyMrTd) == 0) && pct(t, "emptynonnil", 4) {
@@ -1257,7 +1381,7 @@ func genTdxCase(t *rapid.T) *tdxCase {
 	return c
 }
 
-const tdxRule = "base checkconfig.Policy generated field by field from its descriptor (header_policy and td_quote_body_policy independently absent / present, every inner scalar/bytes/repeated field independently set or unset with go-tdx-guest-legal lengths; half of the set allow-lists equal to what the endorsement yields; 10% unknown fields; 8% nil base; 4% empty-but-non-nil any_mr_td) x endorsement tdx rows (0-6 rows, repeated RAM sizes with both early_accept values, rare empty MRTD, 4% no tdx) x RAMGiB {0, a listed size, 6% unlisted} x Overwrite. Oracle: (1) base proto.Equal to the snapshot, result a different object, scrambling the result leaves the base intact; (2) without overwrite a non-empty base any_mr_td equals the result's or an error was returned; (3) for RAMGiB 0 or a listed size any_mr_td == the endorsement's MRTDs for that size (as a set; nothing asserted for unlisted sizes: C02); (4) every other field (header policy, the other quote-body fields, unknown fields) proto.Equal to the base's, where an absent quote body equals a present empty one; (5) an error only when the base carries an allow-list without overwrite, the endorsement has no tdx, or it lists no row for the RAM size (tolerated, not demanded). non-trivial = base any_mr_td non-empty; distinct = (set-field mask, outcome class, options, rows selected/total)"
+const tdxRule = "base checkconfig.Policy generated field by field from its descriptor (header_policy and td_quote_body_policy independently absent / present, every inner scalar/bytes/repeated field independently set or unset with go-tdx-guest-legal lengths; 75% of the set allow-lists derived from the endorsement's rows for the RAM size {equal, strict prefix, strict suffix, non-contiguous subset, superset, reordered, one-bit neighbour}; 10% unknown fields; 8% nil base; 4% empty-but-non-nil any_mr_td) x endorsement tdx rows (0-6 rows, repeated RAM sizes with both early_accept values, rare empty MRTD, 4% no tdx) x RAMGiB {0, a listed size, 6% unlisted} x Overwrite. Oracle: (1) base proto.Equal to the snapshot, result a different object, scrambling the result leaves the base intact; (2) without overwrite a non-empty base any_mr_td equals the result's or an error was returned; (3) for RAMGiB 0 or a listed size any_mr_td == the endorsement's MRTDs for that size (as a set; nothing asserted for unlisted sizes: C02); (4) every other field (header policy, the other quote-body fields, unknown fields) proto.Equal to the base's, where an absent quote body equals a present empty one; (5) an error only when the base carries an allow-list without overwrite, the endorsement has no tdx, or it lists no row for the RAM size (tolerated, not demanded). non-trivial = base any_mr_td non-empty; distinct = (set-field mask, outcome class, options, rows selected/total)"
 
 func TestTdxDerive(t *testing.T) {
 	const name = "tdx/derive"
@@ -1294,7 +1418,7 @@ func fullTdxBase() *tcpb.Policy {
 func TestTdxMatrix(t *testing.T) {
 	const name = "tdx/matrix"
 	const replay = "TestTdxMatrix"
-	ev.Rule(name, "enumeration: base in {nil, empty, header only, full body without allow-list, full with allow-list == endorsement rows, full with another allow-list, full with single-entry list, body with empty non-nil allow-list} x Overwrite x endorsement rows {no tdx, no rows, one size, three rows over two sizes incl. both early_accept variants} x RAMGiB {0, 4, 8, 16 (unlisted)}. Same oracle as tdx/derive. non-trivial = base allow-list non-empty; distinct = the tuple")
+	ev.Rule(name, "enumeration: base in {nil, empty, header only, full body without allow-list, full with allow-list == endorsement rows, full with another allow-list, full with single-entry list, body with empty non-nil allow-list, and allow-lists derived from the endorsement's rows for the RAM size: strict prefixes, strict suffixes, non-contiguous subsets, supersets (extra entry first / inside / last), rotations, one-bit neighbours — each on a fully populated base and on a bare quote body} x Overwrite x endorsement rows {no tdx, no rows, one size, three rows over two sizes incl. both early_accept variants, five rows over three sizes} x RAMGiB {0, 4, 8, 16} (shapes that need more rows than the size has are skipped). Same oracle as tdx/derive. non-trivial = base allow-list non-empty; distinct = the tuple")
 	var rc tdxCase
 	if ev.ReplayCase(replay, &rc) {
 		rc.replayName = ""
@@ -1311,7 +1435,14 @@ func TestTdxMatrix(t *testing.T) {
 		{"no-rows", &epb.VMTdx{Svn: 1}},
 		{"one", &epb.VMTdx{Svn: 1, Measurements: []*epb.VMTdx_Measurement{{RamGib: 4, Mrtd: a}}}},
 		{"three", &epb.VMTdx{Svn: 2, Measurements: []*epb.VMTdx_Measurement{{RamGib: 4, Mrtd: a}, {RamGib: 8, Mrtd: cc}, {RamGib: 4, EarlyAccept: true, Mrtd: b}}}},
+		{"five", &epb.VMTdx{Svn: 2, Measurements: []*epb.VMTdx_Measurement{{RamGib: 16, Mrtd: expand(31, 48)}, {RamGib: 32, Mrtd: expand(32, 48)}, {RamGib: 64, Mrtd: expand(33, 48)},
+			{RamGib: 16, EarlyAccept: true, Mrtd: expand(34, 48)}, {RamGib: 16, Mrtd: expand(35, 48)}}}},
 	}
+	derived := []struct {
+		shape string
+		sel   uint64
+	}{{"prefix", 0}, {"prefix", 1}, {"suffix", 0}, {"suffix", 1}, {"subset", 0}, {"subset", 1}, {"superset", 0}, {"superset", 0x100}, {"superset", 0xf00},
+		{"reordered", 0}, {"reordered", 1}, {"bitflip", 0}, {"bitflip", 0x7f2f01}}
 	n := 0
 	for _, rs := range rowsets {
 		golden, _ := proto.Marshal(&epb.VMGoldenMeasurement{Tdx: rs.tdx, Digest: expand(3, 48)})
@@ -1323,7 +1454,7 @@ func TestTdxMatrix(t *testing.T) {
 				}
 			}
 			for _, ow := range []bool{false, true} {
-				for bi := 0; bi < 8; bi++ {
+				for bi := 0; bi < 8+len(derived); bi++ {
 					c := &tdxCase{Golden: golden, RAMGiB: ram, Overwrite: ow, replayName: replay}
 					var bp *tcpb.Policy
 					switch bi {
@@ -1340,6 +1471,7 @@ func TestTdxMatrix(t *testing.T) {
 					case 4:
 						bp = fullTdxBase()
 						bp.TdQuoteBodyPolicy.AnyMrTd = exp
+						c.AllowShape = "equal"
 					case 5:
 						bp = fullTdxBase() // keeps the template's own list
 					case 6:
@@ -1348,6 +1480,19 @@ func TestTdxMatrix(t *testing.T) {
 					case 7:
 						bp = &tcpb.Policy{HeaderPolicy: fullTdxBase().HeaderPolicy}
 						c.EmptyNonNilAllow = true
+					default: // allow-list derived from the rows for this RAM size
+						d := derived[bi-8]
+						l := deriveList(d.shape, exp, d.sel)
+						if l == nil {
+							continue // rows too short for this shape
+						}
+						if bi%2 == 0 {
+							bp = fullTdxBase()
+						} else {
+							bp = &tcpb.Policy{TdQuoteBodyPolicy: &tcpb.TDQuoteBodyPolicy{}} // what an earlier derivation leaves behind
+						}
+						bp.TdQuoteBodyPolicy.AnyMrTd = l
+						c.AllowShape = d.shape
 					}
 					if bp != nil {
 						c.Base, _ = proto.Marshal(bp)
